@@ -125,3 +125,8 @@ From RV Require C15.Tree.
 Definition wf_forest_case (u : Z) (pos : list (Z * Z * Z)) (L N : nat) (roots : list ((Z * Z * Z) * C15.Tree.dcell)) : bool :=
   C15.Tree.forest_b u (fun i => nth i pos (0, 0, 0)) L N roots.
 Definition bad_bool_cases (l : list bool) : list nat := bad_from (fun b : bool => b) 0 l.
+
+(* ---- (h) DIRECT search restricted to an encounter map (MERCURIUS mode 0/1, TRACE modes), binary64 + shuffle *)
+From RV Require Import C13.Hybrid.
+Definition pending_mapped (bx by_ bz : float) (ngx ngy ngz : Z) (seed : Z) (ps : list fp) (emap : list nat) (ninner : nat) : list entry :=
+  fst (shuffle seed (search_direct_mapped FNum (gb_periodic FNum bx by_ bz) ngx ngy ngz ps emap ninner)).
